@@ -377,6 +377,10 @@ class Ctx:
         evdir = self.out_root / "evidence"
         evdir.mkdir(parents=True, exist_ok=True)
         (evdir / f"{self.prop}.json").write_text(json.dumps(ev, indent=1, default=str))
+        if self.tier == "thorough":
+            # kept next to the latest-run file so that a later quick run does not erase the record of the deep run
+            (evdir / "thorough").mkdir(exist_ok=True)
+            (evdir / "thorough" / f"{self.prop}.json").write_text(json.dumps(ev, indent=1, default=str))
         shutil.rmtree(self.work, ignore_errors=True)
         try:
             (ROOT / ".work").rmdir()
